@@ -1,3 +1,4 @@
+from decimal import Decimal
 """Suite `parse`: (type, options, value) triples run through utype's type_transform and through
 Model/Parse.v `type_transform`; outcomes compared inside Coq."""
 import random, warnings
@@ -35,6 +36,27 @@ def gen_union_case(rng):
         kw["collect_errors"] = True
     v = decl.valid_value(rng, spec) if rng.random() < 0.8 else gen.scalar(rng)
     return dict(spec=spec, options=kw, value=v)
+
+
+RULE_LEAVES = ["digits", "posint", "month", "shortstr", "laxint", "enum_ab", "const5", "bfloat"]
+RULE_UNION_VALUES = [12.0, " 12 ", "12", 12, "123", 123, 5, "5", 5.0, 7.5, "7.5", "a", "ab", "abcd", 0, "0", 3, 11, "11", 99.0, 100,
+                     True, b"12", "1e1", Decimal("12"), Decimal("5.0"), [5], ["12"]]
+
+
+def gen_rule_union_case(rng):
+    """unions whose arms are all constrained (Rule) types, so no exact-type shortcut applies: mostly under exactly one of the
+    two strictness flags (the stage that runs with both is then what keeps a second parse on the same arm)"""
+    leaves = [("leaf", x) for x in rng.sample(RULE_LEAVES, rng.randint(2, 3))]
+    spec = ("logic", "|", leaves)
+    if rng.random() < 0.2:
+        spec = rng.choice([("list", spec, {}), ("dict", ("leaf", "str"), spec)])
+    kw = rng.choice([{"no_data_loss": True}, {"no_data_loss": True}, {"no_explicit_cast": True}, {}, {"no_data_loss": True, "no_explicit_cast": True}])
+    v = rng.choice(RULE_UNION_VALUES)
+    if spec[0] == "list":
+        v = [v, rng.choice(RULE_UNION_VALUES)]
+    elif spec[0] == "dict":
+        v = {"k": v}
+    return dict(spec=spec, options=dict(kw), value=v)
 
 
 _cache = {}
